@@ -415,6 +415,48 @@ def check_paging(F, G7):
                 x, st, k = bad
                 G7.violation(('counter-advance', b.path, 'inc%d' % k), 'search paging: the loop counter `%s` is advanced %d times between examining an element and leaving the loop on some path' % (counter, k),
                              where=b.loc(None), witness={'block_path': ex.witness(x, st)[-30:]})
+        # "finished" (no continuation) may only be answered when the counter reached the *stream length*: the value the
+        # counter is compared with where Some(counter)/None is decided must be the length of the stream's message list
+        # (filtered_msgs.len() / all_msgs.len(), possibly chosen by filters_active), not a clamped or budgeted bound
+        EF = ExprBuilder(cfg, fold_named=True)
+
+        def is_stream_len(e, depth=0):
+            se = show(e)
+            if re.match(r'(Vec::len\(&\(\*stream\)\.filtered_msgs\)|PtrMetadata\(all_msgs\)|slice::len\(all_msgs\)|slice::len\(&\(\*all_msgs\)\))$', se):
+                return True
+            if isinstance(e, tuple) and e[0] == 'place' and len(e) == 2 and depth < 3:
+                ls_ = b.locals_named(e[1])
+                if len(ls_) != 1:
+                    return False
+                ds_ = cfg.defs.get(ls_[0], [])
+                if not ds_:
+                    return False
+                for (bi_, si_, d_) in ds_:
+                    if si_ == 'call':
+                        ev = ('call', d_.callee.path, tuple(EF.operand(a) for a in d_.args))
+                    else:
+                        ev = EF.rvalue(d_.rv)
+                    if not is_stream_len(ev, depth + 1):
+                        return False
+                return True
+            return False
+        for (blk, s_, inner) in conts:
+            decided = None
+            for (c, truth, D) in guards.known(cfg, E, blk.i):
+                if isinstance(c, tuple) and c[0] == 'bin' and c[1] in ('Lt', 'Gt', 'Le', 'Ge', 'Ne') and truth is True:
+                    if c[2] == ('place', counter):
+                        decided = c[3]
+                    elif c[3] == ('place', counter):
+                        decided = c[2]
+            G7.sites += 1
+            if decided is None:
+                G7.violation(('continuation-undecided', b.path), 'cannot find the comparison of `%s` that decides between a continuation and "finished" in %s' % (counter, b.path), where=b.loc(s_.sp))
+            elif is_stream_len(decided):
+                G7.ok(sample={'function': b.path, 'finished_is_answered_when': '%s reached %s' % (counter, show(decided)[:50]), 'which_is': 'the length of the stream message list'})
+            else:
+                G7.violation(('finished-before-end', b.path), 'search paging: %s answers "finished" (no continuation) when `%s` reaches %s, which is not the length of the stream\'s message list: '
+                             'positions behind that bound are never examined by any page' % (b.path, counter, show(EF.operand(Operand({'k': 'copy', 'p': {'l': b.locals_named(decided[1])[0], 'p': [], 't': 'usize'}})) if isinstance(decided, tuple) and decided[0] == 'place' and len(decided) == 2 and len(b.locals_named(decided[1])) == 1 else decided)[:80]),
+                             where=b.loc(s_.sp))
     G7.floor('search functions with an examination loop', n, 1)
 
 
